@@ -10,6 +10,9 @@
 (*                                                                         *)
 (* Filesystem state of the key:                                            *)
 (*   name      which inode the object's path names ("none": no entry)      *)
+(*   pdir      does the key's parent directory exist (the key is nested:   *)
+(*             PutObject creates missing parents, DeleteObject prunes      *)
+(*             empty ones afterwards)                                      *)
 (*   itags     by-path tag attribute per inode (xattr store): written      *)
 (*             AFTER publication by PutObject, through the path            *)
 (*   side      by-path attribute files of the sidecar store: written       *)
@@ -32,6 +35,7 @@ CONSTANTS Scenario,       \* which processes run (see Programs)
           PublishAtomic,  \* design switch
           ReadThroughFd,  \* design switch
           AttrsBeforePublish, \* design switch: tags etc. written through the descriptor before publication
+          WithCrash,      \* TRUE: the gateway process may be killed once, at any step (C11)
           Emit            \* TRUE: print every complete behaviour as JSON
 
 Programs ==
@@ -45,6 +49,9 @@ Programs ==
       [] Scenario = "put_del_get" -> [p1 |-> [op |-> "put", val |-> "w1", tag |-> FALSE], d1 |-> [op |-> "del"], g1 |-> [op |-> "get"]]
       [] Scenario = "put_get_get" -> [p1 |-> [op |-> "put", val |-> "w1", tag |-> FALSE], g1 |-> [op |-> "get"], g2 |-> [op |-> "get"]]
       [] Scenario = "del_del"     -> [d1 |-> [op |-> "del"], d2 |-> [op |-> "del"]]
+      [] Scenario = "put"         -> [p1 |-> [op |-> "put", val |-> "w1", tag |-> FALSE]]
+      [] Scenario = "putT"        -> [p1 |-> [op |-> "put", val |-> "w1", tag |-> TRUE]]
+      [] Scenario = "del"         -> [d1 |-> [op |-> "del"]]
 
 Proc == DOMAIN Programs
 Op(p) == Programs[p].op
@@ -52,10 +59,12 @@ Val(p) == Programs[p].val
 Puts == {p \in Proc : Op(p) = "put"}
 Inodes == {"init"} \cup Puts
 IVal(i) == IF i = "init" THEN "w0" ELSE Val(i)
+\* in the tagged scenarios every write (also the initial object) carries tags
+Tagged == \E p \in Puts : Programs[p].tag
 
-VARIABLES name, itags, side, pc, loc, ops, clk, sched
-vars == <<name, itags, side, pc, loc, ops, clk, sched>>
-fsvars == <<name, itags, side>>
+VARIABLES name, pdir, itags, side, pc, loc, ops, clk, sched
+vars == <<name, pdir, itags, side, pc, loc, ops, clk, sched>>
+fsvars == <<name, pdir, itags, side>>
 
 NoSide == [etag |-> "none", meta |-> "none", tags |-> "none"]
 NoLoc == [size |-> "none", etag |-> "none", meta |-> "none", tags |-> "none", fd |-> "none"]
@@ -63,8 +72,10 @@ NoOp == [inv |-> 0, ret |-> 0, res |-> "none", body |-> "none", len |-> "none", 
 
 Init ==
     /\ name = IF InitPresent THEN "init" ELSE "none"
-    /\ itags = [i \in Inodes |-> "none"]
-    /\ side = IF Meta = "sidecar" /\ InitPresent THEN [etag |-> "w0", meta |-> "w0", tags |-> "none"] ELSE NoSide
+    /\ pdir = InitPresent
+    /\ itags = [i \in Inodes |-> IF i = "init" /\ Tagged THEN "w0" ELSE "none"]
+    /\ side = IF Meta = "sidecar" /\ InitPresent
+                THEN [etag |-> "w0", meta |-> "w0", tags |-> IF Tagged THEN "w0" ELSE "none"] ELSE NoSide
     /\ pc = [p \in Proc |-> "start"]
     /\ loc = [p \in Proc |-> NoLoc]
     /\ ops = [p \in Proc |-> NoOp]
@@ -92,32 +103,45 @@ PutStart(p) ==
     /\ Invoke(p) /\ Tick(p)
     /\ IF Meta = "sidecar" THEN Goto(p, "body_done") ELSE Goto(p, "link_begin")
     /\ itags' = IF AttrsBeforePublish /\ Programs[p].tag THEN [itags EXCEPT ![p] = Val(p)] ELSE itags
+    /\ pdir' = IF Meta = "sidecar" THEN pdir ELSE TRUE     \* MkdirAll(parent) after the body copy
     /\ UNCHANGED <<name, side, loc>>
 PutSideAttrs(p) ==
     /\ pc[p] = "body_done"
     /\ side' = [etag |-> Val(p), meta |-> Val(p),
-                tags |-> side.tags]   \* an old tag file stays
+                tags |-> IF AttrsBeforePublish /\ Programs[p].tag THEN Val(p)
+                         ELSE side.tags]   \* an old tag file stays
     /\ Goto(p, "link_begin") /\ Tick(p)
+    /\ pdir' = TRUE                                        \* MkdirAll(parent) after the body copy
     /\ UNCHANGED <<name, itags, loc, ops>>
-\* link.begin -> link.removed: os.Remove(objPath)
+\* link.begin -> link.removed: as the code was: os.Remove(objPath) (the name vanishes);
+\* with PublishAtomic only a stale directory is removed (never the object)
 PutUnlink(p) ==
     /\ pc[p] = "link_begin"
     /\ name' = IF PublishAtomic THEN name ELSE "none"
     /\ Goto(p, "link_removed") /\ Tick(p)
-    /\ UNCHANGED <<itags, side, loc, ops>>
-\* link.removed -> put.linked: linkat (EEXIST -> link.eexist) | rename
+    /\ UNCHANGED <<pdir, itags, side, loc, ops>>
+\* link.removed -> put.linked: rename (named temp file: replaces atomically) |
+\* linkat (an existing name -> EEXIST -> link.eexist)
 PutLink(p) ==
     /\ pc[p] = "link_removed"
-    /\ IF Strategy = "named" \/ PublishAtomic \/ name = "none"
+    /\ pdir' = TRUE                                        \* MkdirAll(parent) in link()
+    /\ IF Strategy = "named" \/ name = "none"
          THEN name' = p /\ Goto(p, "linked")
          ELSE name' = name /\ Goto(p, "eexist")
     /\ Tick(p)
     /\ UNCHANGED <<itags, side, loc, ops>>
-\* link.eexist -> put.linked: remove the name and link again
+\* link.eexist -> put.linked: as the code was: remove the name and link again; with
+\* PublishAtomic: link under a temporary name and rename over the object.  Both end
+\* with the path naming this inode; neither has a step at which others can look in
+\* between (no observation point), so they are one action here.
+\* If a concurrent DeleteObject pruned the parent directory meanwhile, the rename /
+\* link fails and the PUT is answered with an error.
 PutRelink(p) ==
     /\ pc[p] = "eexist"
-    /\ name' = p /\ Goto(p, "linked") /\ Tick(p)
-    /\ UNCHANGED <<itags, side, loc, ops>>
+    /\ IF pdir THEN name' = p /\ Goto(p, "linked") /\ UNCHANGED ops
+               ELSE name' = name /\ Return(p, [NoOp EXCEPT !.res = "fail"]) /\ Goto(p, "done")
+    /\ Tick(p)
+    /\ UNCHANGED <<pdir, itags, side, loc>>
 \* put.linked -> put.done: post-publication by-path steps (tags).  With the xattr
 \* store the attribute is set on whatever inode the path names NOW; if the path
 \* names nothing (another writer is between unlink and link) PutObjectTagging
@@ -134,7 +158,7 @@ PutPost(p) ==
                             /\ Goto(p, "put_done") /\ UNCHANGED ops
          ELSE UNCHANGED <<itags, side, ops>> /\ Goto(p, "put_done")
     /\ Tick(p)
-    /\ UNCHANGED <<name, loc>>
+    /\ UNCHANGED <<name, pdir, loc>>
 PutReturn(p) ==
     /\ pc[p] = "put_done"
     /\ Return(p, [NoOp EXCEPT !.res = "ok"]) /\ Goto(p, "done") /\ Tick(p)
@@ -205,21 +229,39 @@ DelRemove(p) ==
          THEN Return(p, [NoOp EXCEPT !.res = "absent"]) /\ Goto(p, "done") /\ UNCHANGED name
          ELSE name' = "none" /\ Goto(p, "del_removed") /\ UNCHANGED ops
     /\ Tick(p)
-    /\ UNCHANGED <<itags, side, loc>>
+    /\ UNCHANGED <<pdir, itags, side, loc>>
 \* del.removed -> del.attrs_removed: DeleteAttributes (sidecar files)
 DelAttrs(p) ==
     /\ pc[p] = "del_removed"
     /\ side' = IF Meta = "sidecar" THEN NoSide ELSE side
     /\ Goto(p, "del_attrs_removed") /\ Tick(p)
-    /\ UNCHANGED <<name, itags, loc, ops>>
+    /\ UNCHANGED <<name, pdir, itags, loc, ops>>
+\* del.attrs_removed -> reply: prune the (now empty) parent directories
 DelReturn(p) ==
     /\ pc[p] = "del_attrs_removed"
+    /\ pdir' = IF name = "none" THEN FALSE ELSE pdir
     /\ Return(p, [NoOp EXCEPT !.res = "ok"]) /\ Goto(p, "done") /\ Tick(p)
-    /\ UNCHANGED <<fsvars, loc>>
+    /\ UNCHANGED <<name, itags, side, loc>>
 
 Step(p) == \/ PutStart(p) \/ PutSideAttrs(p) \/ PutUnlink(p) \/ PutLink(p) \/ PutRelink(p) \/ PutPost(p) \/ PutReturn(p)
            \/ GetStart(p) \/ GetStat(p) \/ GetAttrs(p) \/ GetOpen(p) \/ GetReturn(p)
            \/ DelStart(p) \/ DelStat(p) \/ DelRemove(p) \/ DelAttrs(p) \/ DelReturn(p)
+
+(******************************* Crash ************************************)
+\* The gateway process is killed (SIGKILL): every request in flight stops where it
+\* is and is never answered; unnamed temporary inodes vanish with their
+\* descriptors; whatever was done to the name and to by-path attributes stays.
+\* For the client a killed request is one that "failed": it may or may not have
+\* taken effect -- exactly LinKey's reading of res = "fail".
+Crash ==
+    /\ WithCrash
+    /\ \E p \in Proc : pc[p] # "done"
+    /\ ~ \E i \in DOMAIN sched : sched[i] = "crash"
+    /\ ops' = [p \in Proc |-> IF pc[p] = "done" THEN ops[p]
+                              ELSE [NoOp EXCEPT !.res = "fail", !.inv = IF ops[p].inv = 0 THEN clk + 1 ELSE ops[p].inv, !.ret = clk + 1]]
+    /\ pc' = [p \in Proc |-> "done"]
+    /\ clk' = clk + 1 /\ sched' = Append(sched, "crash")
+    /\ UNCHANGED <<fsvars, loc>>
 
 AllDone == \A p \in Proc : pc[p] = "done"
 
@@ -238,7 +280,8 @@ FinalRead == [id |-> "final", op |-> "get", arg |-> "none",
               res |-> IF Final.name = "none" THEN "absent" ELSE "ok",
               inv |-> clk + 1, ret |-> clk + 2,
               body |-> Final.name, len |-> Final.name, etag |-> Final.etag, meta |-> Final.meta,
-              tags |-> Final.tags, full |-> TRUE]
+              tags |-> IF Tagged /\ Final.name # "none" /\ Final.tags = "none" THEN "missing" ELSE Final.tags,
+              full |-> TRUE]
 History == Concurrent \cup {FinalRead}
 
 Report ==
@@ -248,7 +291,7 @@ Report ==
     /\ pc' = [p \in Proc |-> "reported"]
     /\ UNCHANGED <<fsvars, loc, ops, clk, sched>>
 
-Next == (\E p \in Proc : Step(p)) \/ Report
+Next == (\E p \in Proc : Step(p)) \/ Crash \/ Report
 Spec == Init /\ [][Next]_vars
 
 \* ---- properties (the statement of C05), evaluated on complete behaviours
@@ -257,6 +300,6 @@ PNoSpuriousMissing == AllDone => NoSpuriousMissing(InitVal, History)
 PLinearizable      == AllDone => (NoTornRead(History) => Linearizable(InitVal, History))
 
 \* exhaustive property checking does not need the schedule and clock
-View == <<name, itags, side, pc, loc, [p \in Proc |-> [ops[p] EXCEPT !.inv = 0, !.ret = 0]],
+View == <<name, pdir, itags, side, pc, loc, [p \in Proc |-> [ops[p] EXCEPT !.inv = 0, !.ret = 0]],
           {<<p, q>> \in Proc \X Proc : ops[p].ret # 0 /\ ops[q].inv # 0 /\ ops[p].ret < ops[q].inv}>>
 =============================================================================
